@@ -871,6 +871,7 @@ def run_backend(tier, seed, backend, n=None, nproc=16):
     ffails, nfam = family_seq(backend)
     fails += ffails
     model_dis = []
+    n_good = 0
     if backend == "list":
         from common import Driver
         idx = [i for i, o in enumerate(obs) if "elems" in o]
@@ -878,6 +879,10 @@ def run_backend(tier, seed, backend, n=None, nproc=16):
         for i, resp in zip(idx, resps):
             o = obs[i]
             diffs = []
+            # the executable hypothesis of infer_list_complete / C09_tests_total_list on this very sequence
+            n_good += 1 if resp.get("conv") else 0
+            if resp.get("conv") and "raises" in resp["trav"][0].get("infer", {}):
+                diffs.append({"what": "infer-outcome", "real": "theorem infer_list_complete", "model": resp["trav"][0]["infer"]})
             for t, m in o["mem"].items():
                 if m[0] == "ok" and resp["contains"].get(t) != m[1]:
                     diffs.append({"what": "contains", "type": t, "real": m[1], "model": resp["contains"].get(t)})
@@ -890,7 +895,6 @@ def run_backend(tier, seed, backend, n=None, nproc=16):
                 model_dis.append({"kind": "pylist", "recipe": o["recipe"], "diffs": diffs[:4]})
                 for f in o["fails"]:
                     f["known_eligible"] = False
-    n_good = 0
     if backend == "numpy":
         from common import Driver
         idx = [i for i, o in enumerate(obs) if o.get("np")]
